@@ -43,8 +43,8 @@ SPEC = {
         "brg (start 1), flow, sp and mgr with Close racing the started goroutines, judged by the leak oracle, without a Start step model",
         "observed on the unchanged tree, not a property violation: a Close that completes before Start's SetCtx leaves Start failing "
         "cleanly (error, nothing spawned) but with a fresh live context bound and IsClosed() == false",
-        "every wait-dependent verdict (timeout, stuck, leak/live > 0) is re-run alone up to 3 times with doubled patience and reported "
-        "only if it shows every time (stats: timeouts_retried, timeouts_confirmed)",
+        "every wait-dependent verdict (timeout, stuck, leak/live > 0) is re-run once, alone, with doubled patience and reported only "
+        "if it shows again; the first confirmed one ends the harness run (stats: timeouts_retried, timeouts_confirmed)",
         "Bridge.Start racing Bridge.Close (unlocked reads of the forwarders) is outside the model: see KNOWN_FINDINGS comment",
     ],
 }
